@@ -119,30 +119,6 @@ func treeInv(id string, t *BPTree) ([][]byte, []int) {
 	return keys, ids
 }
 
-// checkSeq: got must be exactly the live candidates satisfying in(), ascending by key.
-func checkSeq(id string, gotKeys [][]byte, gotIDs []int, cs []tcand, in func(c tcand) bool) {
-	sel := make([]bool, len(cs))
-	cnt := 0
-	for i, c := range cs {
-		sel[i] = vAnd(c.live, in(c))
-		cnt += tb2i(sel[i])
-	}
-	vAssert(id+".count", len(gotKeys) == cnt)
-	ok := true
-	for i, c := range cs {
-		r := 1
-		for j, d := range cs {
-			if j != i {
-				r += tb2i(vAnd(sel[j], vLessBytes(d.key, c.key)))
-			}
-		}
-		for p := range gotKeys {
-			ok = vAnd(ok, vImplies(vAnd(sel[i], r == p+1), vAnd(vEqBytes(gotKeys[p], c.key), gotIDs[p] == c.id)))
-		}
-	}
-	vAssert(id+".elements", ok)
-}
-
 func recsOf(rs Records) ([][]byte, []int) {
 	var ks [][]byte
 	var ids []int
@@ -153,42 +129,97 @@ func recsOf(rs Records) ([][]byte, []int) {
 	return ks, ids
 }
 
-func treeStep(m, pat int, concrete bool) {
-	t, cs := mkTree(m, pat, concrete)
-	// one symbolic insert (new key at any position, or an overwrite)
-	k := vBytes(2)
-	newID := 1000
-	_ = t.Insert(k, nil, mkHint(k, newID), CountFlagEnabled)
-	dup := false
-	for i := range cs {
-		same := vEqBytes(cs[i].key, k)
-		dup = vOr(dup, same)
-		cs[i].id = vIte(same, newID, cs[i].id)
+// sameSeq asserts got == want elementwise (keys and record ids). Keys that are the same byte terms
+// fold to true without a query.
+func sameSeq(id string, gotK [][]byte, gotID []int, want []tcand) {
+	vAssert(id+".count", len(gotK) == len(want))
+	if len(gotK) != len(want) {
+		return
 	}
-	cs = append(cs, tcand{key: k, id: newID, live: vNot(dup)})
-	vReach("tree.inserted")
-	keys, ids := treeInv("tree", t)
-	checkSeq("tree.chain", keys, ids, cs, func(c tcand) bool { return true })
+	ok := true
+	for i := range want {
+		ok = vAnd(ok, vAnd(vEqBytes(gotK[i], want[i].key), gotID[i] == want[i].id))
+	}
+	vAssert(id+".elements", ok)
+}
 
-	switch vChoose(4) {
+// The model is a sorted slice maintained with ordinary branching code: on each path of the real
+// insert the position of the new key is already decided by the path condition, so these branches are
+// implied (one small query each) and add no paths.
+//
+// phase 0: one Insert with an unconstrained symbolic key, then the invariant, the leaf chain and All().
+// phase 1: Find / Range / PrefixScan with symbolic arguments on the tree as built (no extra insert), so
+//          the cost is quadratic, not cubic, in the number of keys.
+func treeStep(m, pat int, concrete bool, phase int) {
+	t, cs := mkTree(m, pat, concrete)
+	exp := cs
+	if phase == 0 {
+		k := vBytes(2)
+		newID := 1000
+		_ = t.Insert(k, nil, mkHint(k, newID), CountFlagEnabled)
+		pos := 0
+		for pos < len(cs) && vLessBytes(cs[pos].key, k) {
+			pos++
+		}
+		exp = nil
+		exp = append(exp, cs[:pos]...)
+		if pos < len(cs) && vEqBytes(cs[pos].key, k) {
+			exp = append(exp, tcand{key: cs[pos].key, id: newID, live: true})
+			exp = append(exp, cs[pos+1:]...)
+		} else {
+			exp = append(exp, tcand{key: k, id: newID, live: true})
+			exp = append(exp, cs[pos:]...)
+		}
+	}
+	vReach("tree.built")
+	keys, ids := treeInv("tree", t)
+	sameSeq("tree.chain", keys, ids, exp)
+
+	filter := func(in func(c tcand) bool) []tcand {
+		var out []tcand
+		for _, c := range exp {
+			if in(c) {
+				out = append(out, c)
+			}
+		}
+		return out
+	}
+	if phase == 0 { // All
+		rs, err := t.All()
+		gk, gi := recsOf(rs)
+		if err != nil {
+			gk, gi = nil, nil
+		}
+		sameSeq("all", gk, gi, exp)
+		return
+	}
+	switch vChoose(3) {
 	case 0: // Find
 		q := vBytes(2)
 		r, err := t.Find(q)
-		found := false
-		wantID := 0
-		for _, c := range cs {
-			hit := vAnd(c.live, vEqBytes(c.key, q))
-			found = vOr(found, hit)
-			wantID = vIte(hit, c.id, wantID)
-		}
+		hit := filter(func(c tcand) bool { return vEqBytes(c.key, q) })
 		if err != nil {
-			vAssert("find.error-iff-absent", vNot(found))
+			vAssert("find.error-iff-absent", len(hit) == 0)
 		} else {
-			vAssert("find.found-iff-present", found)
-			vAssert("find.record", vAnd(r != nil, r != nil && vAnd(int(r.H.dataPos) == wantID, vEqBytes(r.H.key, q))))
+			vAssert("find.found-iff-present", len(hit) == 1)
+			if len(hit) == 1 {
+				vAssert("find.record", vAnd(r != nil, r != nil && vAnd(int(r.H.dataPos) == hit[0].id, vEqBytes(r.H.key, q))))
+			}
 		}
+		return
 	case 1: // Range
-		s, e := vBytes(2), vBytes(2)
+		s := vBytes(2)
+		var e []byte
+		if concrete {
+			// large shapes: the end bound is the start itself or the maximum key
+			if vChoose(2) == 0 {
+				e = s
+			} else {
+				e = []byte{0xff, 0xff}
+			}
+		} else {
+			e = vBytes(2)
+		}
 		rs, err := t.Range(s, e)
 		if vLessBytes(e, s) {
 			vAssert("range.start-after-end-errors", err != nil)
@@ -198,14 +229,7 @@ func treeStep(m, pat int, concrete bool) {
 		if err != nil {
 			gk, gi = nil, nil
 		}
-		checkSeq("range", gk, gi, cs, func(c tcand) bool { return vAnd(vLeqBytes(s, c.key), vLeqBytes(c.key, e)) })
-	case 2: // All
-		rs, err := t.All()
-		gk, gi := recsOf(rs)
-		if err != nil {
-			gk, gi = nil, nil
-		}
-		checkSeq("all", gk, gi, cs, func(c tcand) bool { return true })
+		sameSeq("range", gk, gi, filter(func(c tcand) bool { return vLeqBytes(s, c.key) && vLeqBytes(c.key, e) }))
 	default: // PrefixScan without offset/limit; prefix of 0..2 bytes
 		pl := vChoose(3)
 		p := vBytes(pl)
@@ -214,14 +238,14 @@ func treeStep(m, pat int, concrete bool) {
 		if err != nil {
 			gk, gi = nil, nil
 		}
-		checkSeq("prefixscan", gk, gi, cs, func(c tcand) bool { return vHasPrefix(c.key, p) })
+		sameSeq("prefixscan", gk, gi, filter(func(c tcand) bool { return vHasPrefix(c.key, p) }))
 	}
 }
 
 func H_C01_TreeStep() {
-	sizes := []int{0, 1, 3, 6, 7, 8, 9, 13}
+	sizes := []int{0, 1, 3, 7, 8, 9, 13}
 	m := sizes[vChoose(len(sizes))]
-	treeStep(m, vChoose(4), false)
+	treeStep(m, vChoose(4), false, vParam("phase"))
 }
 
 // larger shapes (root with several leaves, full root, three levels): pre-state keys are concrete and
@@ -229,12 +253,12 @@ func H_C01_TreeStep() {
 func H_C01_TreeStepLarge() {
 	sizes := []int{14, 20, 27, 35, 36, 44, 70}
 	m := sizes[vChoose(len(sizes))]
-	treeStep(m, vChoose(4), true)
+	treeStep(m, vChoose(4), true, vParam("phase"))
 }
 
 // thorough: symbolic pre-state keys up to 20
 func H_C01_TreeStep20() {
 	sizes := []int{14, 15, 20}
 	m := sizes[vChoose(len(sizes))]
-	treeStep(m, vChoose(4), false)
+	treeStep(m, vChoose(4), false, vParam("phase"))
 }
